@@ -1,4 +1,5 @@
 import MwVerif.Lemmas.Fetch.Closure
+import MwVerif.Lemmas.Merge.Lookup
 /-!
 # C11 — fetching a collection yields a complete archive (work-list level)
 
@@ -46,3 +47,26 @@ example : (run (fun n : Nat => if n = 1 then [2] else if n = 2 then [1] else [])
   decide
 
 end MwVerif.Fetch
+
+namespace MwVerif.Merge
+
+/-- **C11 (merging the answers of a continued query): lists.**  The items of the later answer are appended to the
+items of the earlier one — nothing is dropped or re-ordered. -/
+theorem c11_merge_lists (a b : List J) : merge (.list a) (.list b) = some (.list (a ++ b)) := by rw [merge]
+
+/-- **C11 (merging the answers of a continued query): dictionaries, key by key.**  After a successful merge every key
+holds the merge of the two values if both answers had it, and the one value otherwise: a page reported only by a later
+answer is added, a page reported by both has its lists concatenated (recursively), a page of the earlier answer stays. -/
+theorem c11_merge_key_by_key (a b c : List (Nat × J)) (h : merge (.dict a) (.dict b) = some (.dict c))
+    (hnd : (b.map (·.1)).Nodup) (k : Nat) : Combined (lookup k a) (lookup k b) (lookup k c) := by
+  rw [merge] at h
+  simp only [Option.map_eq_some_iff, J.dict.injEq] at h
+  obtain ⟨c', hc, rfl⟩ := h
+  exact lookup_mergeKV b a c' hc hnd k
+
+/-- two answers about page 7: the first lists image 1, the second image 2 and a new page 9. -/
+example : merge (.dict [(7, .dict [(1, .list [.scalar 0 1])])]) (.dict [(7, .dict [(1, .list [.scalar 0 2])]), (9, .dict [])])
+    = some (.dict [(7, .dict [(1, .list [.scalar 0 1, .scalar 0 2])]), (9, .dict [])]) := by
+  simp [merge, mergeKV, lookup, setKey]
+
+end MwVerif.Merge
